@@ -352,14 +352,14 @@ calc_grep_atom(const char *fmt)
 	dstd:
 		/* standard format, %Y-%m-%d */
 		res.needle = '-';
-		res.pl.off_min = -4;
-		res.pl.off_max = -4;
+		res.pl.off_min += -4;
+		res.pl.off_max += -4;
 		goto out;
 	tstd:
 		/* standard format, %H:%M:%S */
 		res.needle = ':';
-		res.pl.off_min = -2;
-		res.pl.off_max = -1;
+		res.pl.off_min += -2;
+		res.pl.off_max += -1;
 		goto out;
 	} else {
 		/* try and transform shortcuts */
